@@ -5,6 +5,7 @@
 mod abs;
 mod alloc;
 mod c01;
+mod c01raw;
 mod c08;
 mod c16;
 mod c16_structs;
@@ -28,6 +29,8 @@ pub fn last_panic() -> String {
 /// Command table: add new commands here.
 const COMMANDS: &[(&str, &str, fn(&[String]) -> i32)] = &[
     ("c01", "<vectors.ndjson> <out.ndjson>", c01::cmd),
+    ("c01-raw", "<samples.ndjson> <out.ndjson>", c01raw::cmd),
+    ("c01-short", "<cases.ndjson> <out.ndjson>", c01raw::cmd_short),
     ("c17-matrix", "<types.ndjson> <out.ndjson>", c17::cmd_matrix),
     ("c17-rollback", "<histories.ndjson> <out.ndjson>", c17::cmd_rollback),
     ("c17-whole", "<unused> <out.ndjson>", c17::cmd_whole),
